@@ -45,17 +45,33 @@ use crate::{Error, Location};
 pub trait FromF64 {
     /// Construct from an f64 (lossy for f32).
     fn from_f64(v: f64) -> Self;
+    /// Convert a plain decimal literal directly to the target type, so that the value is
+    /// rounded once (as it is without `angle_conversions`). `None` if unsupported or malformed.
+    fn parse_decimal(_s: &str) -> Option<Self>
+    where
+        Self: Sized,
+    {
+        None
+    }
 }
 impl FromF64 for f64 {
     #[inline]
     fn from_f64(v: f64) -> Self {
         v
     }
+    #[inline]
+    fn parse_decimal(s: &str) -> Option<Self> {
+        s.parse().ok()
+    }
 }
 impl FromF64 for f32 {
     #[inline]
     fn from_f64(v: f64) -> Self {
         v as f32
+    }
+    #[inline]
+    fn parse_decimal(s: &str) -> Option<Self> {
+        s.parse().ok()
     }
 }
 
@@ -71,6 +87,22 @@ pub(crate) fn parse_yaml12_float_angle_converting<T>(
 where
     T: FromF64,
 {
+    // An ordinary decimal literal (sign, digits, '.', exponent; nothing to evaluate or convert)
+    // keeps exactly the value it has without angle conversions: parse it directly as `T`
+    // instead of going through f64, which would round an f32 twice.
+    if !matches!(tag, SfTag::Degrees) {
+        let t = s.trim_matches(|c: char| matches!(c, ' ' | '\t' | '\n' | '\r'));
+        if !t.is_empty()
+            && t.len() <= MAX_NUM_DIGITS
+            && t.bytes()
+                .all(|c| c.is_ascii_digit() || matches!(c, b'.' | b'e' | b'E' | b'+' | b'-'))
+        {
+            if let Some(v) = T::parse_decimal(t) {
+                return Ok(v);
+            }
+        }
+    }
+
     let mut p = Parser::new(s, location, tag);
     p.skip_ws();
     let (mut value, used_unit, saw_plain) = p.expr()?; // parse whole expression
